@@ -28,6 +28,8 @@ def case_spec(seed, i):
     rnd = gen.rng_for('C18', seed, i)
     r = rnd.random()
     acc = 0
+    if r > .93:
+        return 'replica', gen.gen_replica(rnd)
     for name, w, kw in PROFILES:
         acc += w
         if r < acc:
